@@ -1,5 +1,72 @@
-/- Line-protocol driver for the C07 model (stub until the model exists). -/
-import ForML.Model.Sexp
-open ForML
+/- Line-protocol driver for the C07 model (ForML.Model.Grammar).
 
-def main : IO Unit := driverLoop (fun _ => .atom "no-model")
+   (stmt SRC)  →  (stmt RESULT SCHEMA WF SAME (NORMAL TAME RESOLVABLE PLAIN))
+       RESULT = (ok STORED) | (error grammar|lookup|recursion|illtyped)   `construct implEqv SRC` (hash equality, free environment)
+       SCHEMA = (ok ((name kind)…)) | (error E) | none                    `.schema` of the constructed statement
+       WF     = true | false                                              the documented grammar `WellFormed SRC`
+       SAME   = true | false                                              `construct structEqv SRC` gives the same result
+       NORMAL, TAME, RESOLVABLE, PLAIN = true | false                     the hypotheses of the partial theorems of Props/C07
+   every line may be wrapped as (let ((x sexp) …) body), `$x` atoms are substituted (see ForML.Model.Dsl).
+   A table with a repeated field name is not a `dsl.Schema` → bad-op. -/
+import ForML.Model.Sexp
+import ForML.Model.Dsl
+import ForML.Model.DslEq
+import ForML.Model.Grammar
+open ForML ForML.Dsl
+
+def errSexp : CtorErr → Sexp
+  | .grammar => .atom "grammar"
+  | .lookup => .atom "lookup"
+  | .recursion => .atom "recursion"
+  | .illtyped => .atom "illtyped"
+
+def distinctNames (fs : Fields) : Bool := (fs.map (·.1)).eraseDups.length == fs.length
+
+mutual
+partial def tablesOkF : Feature → Bool
+  | .lit _ => true
+  | .elem o _ => tablesOkS o
+  | .alias f _ => tablesOkF f
+  | .expr _ args => args.toList.all tablesOkF
+  | .cast f _ => tablesOkF f
+  | .window fn ps os => tablesOkF fn && ps.toList.all tablesOkF && os.toList.all (fun o => tablesOkF o.feature)
+partial def tablesOkS : Source → Bool
+  | .table _ fs => distinctNames fs
+  | .ref i _ => tablesOkS i
+  | .join l r _ c => tablesOkS l && tablesOkS r && (c.toOption.all tablesOkF)
+  | .set l r _ => tablesOkS l && tablesOkS r
+  | .query s sel pre grp post ord _ =>
+    tablesOkS s && sel.toList.all tablesOkF && pre.toOption.all tablesOkF && grp.toList.all tablesOkF &&
+      post.toOption.all tablesOkF && ord.toList.all (fun o => tablesOkF o.feature)
+end
+
+def sameRes : R Source → R Source → Bool
+  | .ok a, .ok b => decide (a = b)
+  | .error a, .error b => decide (a = b)
+  | _, _ => false
+
+def stepC07 (line : Sexp) : Sexp :=
+  match expandLet line with
+  | none => .atom "bad-op"
+  | some x =>
+    match x with
+    | .list [.atom "stmt", s] =>
+      match Source.ofSexp s with
+      | none => .atom "bad-op"
+      | some r =>
+        if !tablesOkS r then .atom "bad-op" else
+        let res := construct implEqv r
+        let same := sameRes (construct structEqv r) res
+        let (rs, sch) : Sexp × Sexp := match res with
+          | .error e => (.list [.atom "error", errSexp e], .atom "none")
+          | .ok st =>
+            (.list [.atom "ok", st.toSexp],
+              match st.schemaOf with
+              | .ok fs => .list [.atom "ok", fieldsToSexp fs]
+              | .error e => .list [.atom "error", errSexp e])
+        .list [.atom "stmt", rs, sch, Sexp.ofBool (Source.wf r), Sexp.ofBool same,
+          .list [Sexp.ofBool r.normal, Sexp.ofBool r.tame, Sexp.ofBool r.resolvable, Sexp.ofBool r.plain]]
+
+    | _ => .atom "bad-op"
+
+def main : IO Unit := driverLoop stepC07
